@@ -464,6 +464,13 @@ def run_recipe(ctx, recipe: dict, chaos: Optional[Callable] = None) -> dict:
                 for k, n in diverged.items():
                     if n:
                         ctx.count(f"truth:steps-with-visible≠actual:{k}")
+                watched = observed_components(game)
+                for node in game.simulation.network.nodes.values():
+                    if node.operating_state.value != 1 and node.config.hostname in watched:
+                        kind = type(node).__name__
+                        content = any(r is not None for an in rig.ACL_NAMES for r in (getattr(getattr(node, an, None), "acl", None) or [])) \
+                            or any(getattr(s_, "health_state_actual", None) is not None and s_.health_state_actual.value > 1 for s_ in node.services.values())
+                        ctx.count(f"truth:observed-node-not-ON:{kind}:{node.operating_state.name}" + (":non-default-content" if content else ""))
                 dup = 0
                 for node in game.simulation.network.nodes.values():
                     groups = [[x.name for x in node.services.values()], [x.name for x in node.applications.values()],
